@@ -688,6 +688,7 @@ fn spawn_async_ao_list_in_task'''),
         ('owned-shell-builtin-keeps-its-control-flow', 'brush-core/src/commands.rs', "            result.map(|result| ExecutionResult::from(result.exit_code))\n", "            result\n"),
     ],
     'U20c': [
+        ('tokens-walked-in-the-order-the-tokenizer-yields-them', 'brush-interactive/src/highlighting.rs', "            tokens.sort_by_key(|token| token.location().start.index);\n", ""),
         ('fallback-span-runs-to-the-end-of-the-input', 'brush-interactive/src/highlighting.rs', "                global_offset..global_offset + line.len(),", "                global_offset..self.input_line.len(),"),
         ('subpieces-offset-from-the-quoted-piece', 'brush-interactive/src/highlighting.rs', "self.highlight_word_piece(subpiece, HighlightKind::Quoted, global_offset);", "self.highlight_word_piece(subpiece, HighlightKind::Quoted, piece.start);"),
         ('command-substitution-offset-off-by-one', 'brush-interactive/src/highlighting.rs', "self.highlight_program(command.as_str(), piece.start + 2 /* opening $( */);", "self.highlight_program(command.as_str(), piece.start + 4);"),
